@@ -626,8 +626,8 @@ def part_a(ctx: Ctx) -> bool:
 # --------------------------------------------------------------------------
 # part T: the table-like core re-translated from the source on every run (harness/translate.py)
 # --------------------------------------------------------------------------
-TRANSLATOR_TIE = {"C05": ["tensor", "state_idx", "comp_trans_prob", "transition_prob"],
-                  "C14": ["tensor", "state_idx"],
+TRANSLATOR_TIE = {"C05": ["tensor", "state_idx", "generate_transition", "comp_trans_prob", "transition_prob"],
+                  "C14": ["tensor", "state_idx", "generate_transition"],
                   "C06": ["confusion", "observation", "row_wise_kron", "comp_obs_prob"],
                   "C02": ["element", "compute_encoding", "tile_and_repeat"],
                   "C08": ["compute_encoding", "tile_and_repeat"],
@@ -635,7 +635,7 @@ TRANSLATOR_TIE = {"C05": ["tensor", "state_idx", "comp_trans_prob", "transition_
 # advisory pieces: loop nests that a maintainer may well rewrite without changing behaviour (one of the stored harmless
 # refactorings does).  Their obligation is generated, checked and recorded on every run, but when it breaks the
 # correspondence alone decides (no violation is raised for the broken obligation itself).
-ADVISORY_PIECES = {"observation"}
+ADVISORY_PIECES = {"observation", "generate_transition"}
 
 
 def translator_tie(ctx: "Ctx") -> None:
